@@ -44,7 +44,34 @@ def validate_bounds_traces(chk: Check, families: list[dict], props: set[str] | N
                 chk.samples.append(s)
 
 
+MAX_BATCH_BYTES = 12_000_000      # TLC holds a whole batch in memory as TLA+ values (tens of times the JSON size)
+
+
 def validate_file(chk: Check, path: Path, n: int, props: set[str], family: str, spec: str = "Trace_Bounds") -> list:
+    """Validate one batch file; a very large batch is cut into several TLC runs."""
+    if path.stat().st_size > MAX_BATCH_BYTES:
+        data = json.loads(path.read_text())
+        groups, cur, size = [], [], 0
+        for T in data["traces"]:
+            b = len(json.dumps(T, separators=(",", ":")))
+            if cur and size + b > MAX_BATCH_BYTES:
+                groups.append(cur)
+                cur, size = [], 0
+            cur.append(T)
+            size += b
+        if cur:
+            groups.append(cur)
+        mine = []
+        for gi, g in enumerate(groups):
+            part = path.with_name(f"{path.stem}_part{gi}.json")
+            part.write_text(json.dumps({"traces": g}, separators=(",", ":")))
+            mine += _validate_one(chk, part, n, props, family, spec)
+            part.unlink()
+        return mine
+    return _validate_one(chk, path, n, props, family, spec)
+
+
+def _validate_one(chk: Check, path: Path, n: int, props: set[str], family: str, spec: str = "Trace_Bounds") -> list:
     cfg = chk.wd / f"{path.stem}.cfg"
     consts = {"N": n, "Props": set(props)} if spec not in ("Trace_Crash", "Trace_Save", "Trace_Regret") else {"Props": set(props)}
     vlib.write_cfg(cfg, spec="TraceSpec", constants=consts, postcondition="AllConsumed")
